@@ -1,0 +1,35 @@
+// This Source Code Form is subject to the terms of the Mozilla Public
+// License, v. 2.0. If a copy of the MPL was not distributed with this
+// file, You can obtain one at http://mozilla.org/MPL/2.0/.
+
+//go:build verif
+
+package runtime
+
+import (
+	"sync/atomic"
+
+	"github.com/cosi-project/runtime/pkg/controller/runtime/internal/reduced"
+)
+
+// Scheduler gate for model-based replay (compiled only with -tags verif): the delivery goroutine calls it after it has
+// taken one key out of the deduplication map and handed the map back, before it looks up and triggers the dependent
+// controllers. A harness that installs a blocking function decides when the delivery goroutine moves on.
+var verifDeliverGate atomic.Pointer[func(namespace, typ, id string)]
+
+// SetVerifDeliverGate installs (nil: removes) the gate.
+func SetVerifDeliverGate(f func(namespace, typ, id string)) {
+	if f == nil {
+		verifDeliverGate.Store(nil)
+
+		return
+	}
+
+	verifDeliverGate.Store(&f)
+}
+
+func (runtime *Runtime) verifBeforeTrigger(k *reduced.Metadata) {
+	if f := verifDeliverGate.Load(); f != nil {
+		(*f)(k.Namespace, k.Typ, k.ID)
+	}
+}
